@@ -440,6 +440,90 @@ def r6_6(ctx, R, mus):
     ctx.floor("R6.6", "release-sites", n, 2)
 
 
+def r6_7(ctx, R, mus):
+    ctx.rule("R6.7", "no way around the release: in the Drop impl of every MaybeUninit-buffer struct (release helpers "
+                     "inlined) every entry->return path runs the iterator step of the whole-buffer release loop, except "
+                     "across an edge on which the buffer itself is empty (is_empty() / len() == 0 of that field) or on which "
+                     "core::mem::needs_drop::<T>() is false for T = exactly the buffer's element type")
+    from lib_flow import only_via
+    n = 0
+    for sp, fields in mus.items():
+        adt = ctx.facts.adts[sp]
+        elem = None
+        for f in adt["variants"][0]["fields"]:
+            if f["name"] in fields:
+                m = re.search(r"core::mem::MaybeUninit<(.*)>\]?>?$", f["ty"])
+                m2 = re.search(r"MaybeUninit<(.+?)>\]>$", f["ty"])
+                elem = (m2 or m).group(1) if (m2 or m) else None
+        for item in [i for i in ctx.facts.impls if i["trait"] == "core::ops::Drop" and re.match(re.escape(sp) + r"<", i["self_ty"])]:
+            for ip in item["items"]:
+                b = ctx.facts.bodies.get(ip)
+                if b is None:
+                    continue
+                fl = ctx.flow(b)
+                rel = direct_sites(b, RE_RELEASE)
+                nxs = set()
+                for bb, t, fn in rel:
+                    e = strip_refs(fl.operand_expr(t["args"][0]))
+                    for c in expr_calls(e):
+                        if (c[1] or "").endswith("::next"):
+                            nxs.add(c[3])
+                if not nxs:
+                    ctx.ob("R6.7", b, "release-loop-present", False, d_loc(b), "no release loop found in the Drop impl (helpers inlined)")
+                    continue
+
+                def needs_drop_elem(x):
+                    """x is the value of needs_drop::<elem>() (call or a constant defined as that call)"""
+                    x = strip_refs(x)
+                    if x[0] == "call" and (x[1] or "").endswith("core::mem::needs_drop"):
+                        t_ = b.term(x[3])
+                        return (t_["func"]["fn"].get("def_args") or [None])[0] == elem
+                    if x[0] == "const" and x[2] in ctx.facts.bodies:
+                        cb = ctx.facts.bodies[x[2]]
+                        calls = [t_ for _, t_, fn_ in cb.calls() if fn_ and fn_["def"] == "core::mem::needs_drop"]
+                        return len(calls) == 1 and cb.n <= 3 and (calls[0]["func"]["fn"].get("def_args") or [None])[0] == elem
+                    return False
+
+                def exempt(lab):
+                    if lab[0] != "bool":
+                        return False
+                    x = lab[1]
+                    if x[0] == "unop" and x[1] == "Not":
+                        return exempt(("bool", x[2], not lab[2]))
+                    if needs_drop_elem(x):
+                        return lab[2] is False
+                    if x[0] == "call" and re.search(r"::is_empty$", x[1] or "") and lab[2] is True and x[2]:
+                        fld = c07.field_of(strip_refs(x[2][0])) or ""
+                        return fld[1:] in fields or any((c07.field_of(strip_refs(c_[2][0])) or "")[1:] in fields for c_ in expr_calls(x[2][0]) if c_[2])
+                    if x[0] == "binop" and ((x[1] == "Eq" and lab[2] is True) or (x[1] == "Ne" and lab[2] is False)):
+                        for l_, r_ in ((x[2], x[3]), (x[3], x[2])):
+                            if r_[0] == "const" and r_[2] == "0" and l_[0] == "call" and (l_[1] or "").endswith("::len") and l_[2] and \
+                                    (c07.field_of(strip_refs(l_[2][0])) or "")[1:] in fields:
+                                return True
+                    return False
+                # paths that avoid every iterator step and every exempt edge
+                seen = set()
+                work = [0]
+                bad = None
+                while work:
+                    x = work.pop()
+                    if x in seen or x in nxs:
+                        continue
+                    seen.add(x)
+                    if b.term(x)["k"] == "return":
+                        bad = x
+                    labs = fl.edge_labels(x)
+                    for y in b.normal_succ(x):
+                        if any(exempt(l_) for l_ in labs.get(y, [])):
+                            continue
+                        work.append(y)
+                n += 1
+                ctx.ob("R6.7", b, "every-path-runs-the-release-loop", bad is None, d_loc(b),
+                       "iterator steps at %s; element type %s%s" % ([b.loc(x) for x in sorted(nxs)], elem,
+                                                                     "" if bad is None else "; a path returns at %s without running it" % b.loc(bad)))
+    ctx.floor("R6.7", "Drop impls of buffer structs", n, 2)
+
+
 ADAPTORS_OK = ("into_iter", "iter_mut", "iter", "enumerate", "rev", "filter", "by_ref", "as_mut", "deref_mut", "deref")
 
 
@@ -453,6 +537,7 @@ def run(ctx):
     r6_4(ctx, R, mus)
     r6_5(ctx, R)
     r6_6(ctx, R, mus)
+    r6_7(ctx, R, mus)
     # children are dropped in place when vacated, the waker allocation is released exactly once (shared rules)
     import c02
     import c03
